@@ -1,9 +1,10 @@
 From Coq Require Import Extraction ExtrOcamlBasic.
 From PV Require Import Lib.ExtractBase Lib.AmmoBytes Lib.AmmoDecimal Lib.AmmoLines Model.AmmoCommon
-  Model.AmmoUri Model.AmmoUripost Model.AmmoRaw Model.AmmoJson.
+  Model.AmmoUri Model.AmmoUripost Model.AmmoRaw Model.AmmoJson Model.AmmoSched.
 Extraction Language OCaml.
 Extraction "extracted/C07_model.ml" xb_types max_token cfg0 build cycle_take
   uri_decode render_uri uri_entries wf_uitem
   uripost_decode render_uripost uripost_entries wf_pitem
   raw_decode render_raw raw_entries wf_ritem
-  json_stream_decode json_array_decode entity_entry.
+  json_stream_decode json_array_decode entity_entry
+  sched_obs.
